@@ -117,7 +117,17 @@ ParamTypeCases ==
               "limit:param.type-after-known", F) @@ [expect |-> IF n <= 32 THEN "accept" ELSE "reject"] :
         a \in {ALG_ES256, -257}, n \in {32, 33}}
 
-MC_Cases == SizeCases \cup UnboundedCases \cup IntCases \cup ParamTypeCases
+\* the integer range of `alg` applies to every entry as well (position 3, after two kept entries)
+AlgNode(n, neg) == CMap(<< <<CText(N_alg), IF neg THEN CNInt(n) ELSE CUInt(n)>>, <<CText(N_type), CText(N_publicKey)>> >>)
+ParamAlgCases ==
+    {LatCase(1, <<CU(4)>>, CArr(pre \o <<AlgNode(v.n, v.neg)>> \o post), v.expect, "range-i32:alg-any-position") :
+        pre \in {<< >>, <<AlgNode(BN(6), TRUE)>>, <<AlgNode(BN(6), TRUE), AlgNode(BN(7), TRUE)>>, <<AlgNode(BN(6), TRUE), AlgNode(BN(6), TRUE)>>},
+        post \in {<< >>, <<AlgNode(BN(256), TRUE)>>},
+        v \in {[n |-> <<128, 0, 0, 0>>, neg |-> FALSE, expect |-> "reject"], [n |-> <<128, 0, 0, 0>>, neg |-> TRUE, expect |-> "reject"],
+               [n |-> BNMaxI32, neg |-> FALSE, expect |-> "accept"], [n |-> BNMaxI32, neg |-> TRUE, expect |-> "accept"],
+               [n |-> BNSucc(BNMaxU32), neg |-> FALSE, expect |-> "reject"]}}
+
+MC_Cases == SizeCases \cup UnboundedCases \cup IntCases \cup ParamTypeCases \cup ParamAlgCases
 
 (***************************************************************************)
 (* C12 on the model: the decoder's decision agrees with the limits above   *)
